@@ -157,6 +157,12 @@ type zoneInfo struct {
 }
 
 func loadZone(name string, crossCheck bool) (*zoneInfo, error) {
+	return loadZoneEra(name, eraFrom, eraTo, crossCheck)
+}
+
+// loadZoneEra scans the zone over [from, to] (Unix seconds); the grid and the
+// transition windows are only populated where they fall into that era.
+func loadZoneEra(name string, from, to int64, crossCheck bool) (*zoneInfo, error) {
 	zi := &zoneInfo{name: name}
 	var loc *time.Location
 	if name == "+05:30" {
@@ -168,7 +174,7 @@ func loadZone(name string, crossCheck bool) (*zoneInfo, error) {
 			return nil, err
 		}
 	}
-	z, err := cronref.ScanZone(name, loc, eraFrom, eraTo, crossCheck)
+	z, err := cronref.ScanZone(name, loc, from, to, crossCheck)
 	if err != nil {
 		return nil, err
 	}
@@ -473,17 +479,20 @@ func merge(m map[string]*mismatch, x *mismatch) {
 // ---- worker protocol ----------------------------------------------------------
 
 type unitReq struct {
-	ID      int    `json:"id"`
-	Zone    string `json:"zone"`
-	Spec    string `json:"spec"`
-	Kind    string `json:"kind"` // grid | win | single | every
-	Mod     int    `json:"mod"`  // grid: indices with index%Mod==Rem
-	Rem     int    `json:"rem"`
-	FromG   int    `json:"from_g"` // resume position
-	FromI   int    `json:"from_i"`
-	Unix    int64  `json:"unix"` // single
-	Nanos   int    `json:"nanos"`
-	LimitMs int    `json:"limit_ms"`
+	ID      int        `json:"id"`
+	Zone    string     `json:"zone"`
+	Spec    string     `json:"spec"`
+	Kind    string     `json:"kind"`     // grid | win | single | every | list
+	EraFrom int64      `json:"era_from"` // scanned era of the zone, if not the default one
+	EraTo   int64      `json:"era_to"`
+	Starts  [][2]int64 `json:"starts"` // list: start instants (Unix seconds, nanoseconds), ascending
+	Mod     int        `json:"mod"`    // grid: indices with index%Mod==Rem
+	Rem     int        `json:"rem"`
+	FromG   int        `json:"from_g"` // resume position
+	FromI   int        `json:"from_i"`
+	Unix    int64      `json:"unix"` // single
+	Nanos   int        `json:"nanos"`
+	LimitMs int        `json:"limit_ms"`
 }
 
 type unitResp struct {
@@ -516,6 +525,12 @@ func groupsFor(zi *zoneInfo, q *unitReq) []group {
 		return zi.wins
 	case "single":
 		return []group{{starts: []time.Time{time.Unix(q.Unix, int64(q.Nanos)).UTC()}}}
+	case "list":
+		var gs []group
+		for _, sn := range q.Starts {
+			gs = append(gs, group{starts: []time.Time{time.Unix(sn[0], sn[1]).UTC()}})
+		}
+		return gs
 	}
 	panic("kind " + q.Kind)
 }
@@ -602,12 +617,19 @@ func workerMain() {
 			flush(resp, mis)
 			continue
 		}
-		zi := zones[q.Zone]
+		from, to := eraFrom, eraTo
+		if q.EraFrom != 0 {
+			from, to = q.EraFrom, q.EraTo
+		} else if q.Kind == "single" && (q.Unix < eraFrom || q.Unix > eraTo-7*366*86400) {
+			from, to = q.Unix-366*86400, q.Unix+8*366*86400 // replay of a case outside the default era
+		}
+		zkey := fmt.Sprintf("%s@%d", q.Zone, from)
+		zi := zones[zkey]
 		if zi == nil {
-			if zi, err = loadZone(q.Zone, false); err != nil { // the driver has cross-checked this zone
+			if zi, err = loadZoneEra(q.Zone, from, to, false); err != nil { // the driver has cross-checked this zone and era
 				panic(err)
 			}
-			zones[q.Zone] = zi
+			zones[zkey] = zi
 		}
 		p, err := newPair(zi, q.Spec)
 		if err != nil {
@@ -712,6 +734,97 @@ func evalEvery(d string, t time.Time) *mismatch {
 		return nil
 	}
 	return &mismatch{Key: "every;d=" + d, Msg: fmt.Sprintf("@every %s: Next(%s) = %s, documented: t truncated to the second + %v = %s", d, t.Format(time.RFC3339Nano), got.Format(time.RFC3339Nano), cronref.EveryDelay(dur), want.Format(time.RFC3339Nano)), C: c, N: 1}
+}
+
+// ---- the horizon-boundary family ---------------------------------------------------
+
+var (
+	// years before non-leap century years (1899, 2099, 2199: the next 29 Feb is 8
+	// years after the previous one and lies in calendar year start+5 for starts
+	// in C-1) and before leap ones (1999, 2399)
+	horizonCenturies = []int{1900, 2000, 2100, 2200, 2400}
+	horizonZones     = []string{"UTC", "+05:30", "America/New_York", "Europe/London"}
+	horizonSpecs     = []string{
+		"0 0 0 29 2 *", "0 0 0 29 FEB ?", "30 15 12 29 2 *", "59 59 23 29 2 *", "* * * 29 2 *", "0 0 0 29-31 2 *", // 29 February
+		"0 0 0 29 2 0", "0 0 0 31 1,3 1", // both day fields restricted: either-day, at least yearly
+		"0 0 0 31 2,4,6,9,11 ?", "0 0 0 30 2 *", // never
+	}
+)
+
+func horizonEra(c int) (from, to int64) {
+	return time.Date(c-8, 1, 1, 0, 0, 0, 0, time.UTC).Unix(), time.Date(c+9, 1, 1, 0, 0, 0, 0, time.UTC).Unix()
+}
+
+// horizonStarts: start instants for (zone, century year c, spec), ascending.
+// Building start instants from calendar fields is fine: they are inputs.
+func horizonStarts(zi *zoneInfo, c int, spec string) [][2]int64 {
+	loc := zi.z.Loc
+	lo, hi := time.Date(c-6, 1, 1, 0, 0, 0, 0, loc), time.Date(c+2, 1, 1, 0, 0, 0, 0, loc)
+	var ts []time.Time
+	add := func(t time.Time) {
+		if !t.Before(lo) && t.Before(hi) {
+			ts = append(ts, t)
+		}
+	}
+	ref := cronref.Parse(spec, secondsLayout)
+	if ref.Verdict != cronref.Accept {
+		panic("horizon spec " + spec)
+	}
+	// does the schedule ever match in the era? (never-matching ones cost kit
+	// ~40 ms per call: a few starts only)
+	sc := &cronref.Scanner{Z: zi.z, S: &ref.Sched, Fast: true}
+	var matches []int64
+	for t := lo; t.Before(hi); {
+		a := sc.Next(t)
+		if !a.Found {
+			t = t.AddDate(1, 0, 0)
+			continue
+		}
+		if len(matches) < 40 {
+			matches = append(matches, a.Unix)
+		}
+		t = time.Unix(a.Unix, 0).In(loc).AddDate(0, 0, 1) // one match per day is enough
+		if len(matches) >= 40 {
+			break
+		}
+	}
+	if len(matches) == 0 {
+		add(time.Date(c-1, 6, 1, 0, 0, 0, 0, loc))
+		add(time.Date(c-1, 12, 31, 23, 59, 59, 0, loc))
+		add(time.Date(c, 1, 1, 0, 0, 0, 0, loc))
+	} else {
+		for y := c - 6; y <= c+1; y++ {
+			for m := time.January; m <= time.December; m++ {
+				add(time.Date(y, m, 1, 0, 0, 0, 0, loc))
+				add(time.Date(y, m, 15, 12, 30, 30, 500000000, loc))
+			}
+			add(time.Date(y, 2, 28, 23, 59, 58, 0, loc))
+			add(time.Date(y, 2, 28, 23, 59, 59, 0, loc))
+			add(time.Date(y, 2, 28, 23, 59, 59, 500000000, loc))
+			add(time.Date(y, 2, 29, 0, 0, 0, 0, loc)) // 1 Mar in common years
+			add(time.Date(y, 2, 29, 23, 59, 59, 0, loc))
+			add(time.Date(y, 3, 1, 0, 0, 0, 0, loc))
+			add(time.Date(y, 3, 1, 0, 0, 1, 0, loc))
+			add(time.Date(y, 12, 31, 23, 59, 59, 0, loc))
+			add(time.Date(y, 12, 31, 23, 59, 59, 999999999, loc))
+		}
+		for _, m := range matches {
+			M := time.Unix(m, 0).In(loc)
+			for _, d := range []time.Duration{-time.Second, 0, time.Second} {
+				add(M.Add(d))
+				add(M.AddDate(-5, 0, 0).Add(d))
+			}
+		}
+	}
+	sort.Slice(ts, func(i, j int) bool { return ts[i].Before(ts[j]) })
+	var out [][2]int64
+	for i, t := range ts {
+		if i > 0 && t.Equal(ts[i-1]) {
+			continue
+		}
+		out = append(out, [2]int64{t.Unix(), int64(t.Nanosecond())})
+	}
+	return out
 }
 
 // ---- driver side -------------------------------------------------------------
@@ -902,7 +1015,7 @@ func run(r *enumx.Run, replay *enumx.ReplayCase) {
 	if !subset(wideQuick, wideThorough) || !subset(windowQuick, windowThorough) || !subset(windowThorough, wideThorough) {
 		panic("menu inclusion broken: quick must explore a subset of thorough")
 	}
-	r.Rule("next: each case is one (schedule, zone, start instant) triple: kit's Next(t) against the reference scan of absolute time. Schedules: full product of a term menu per field. Start instants per zone: a regular grid 2005-2030 (step 97d5h43m17.25s) for the wide menu, and for the window menu every 7 minutes from -50h to +4h around every UTC-offset change of the zone in 2005-2024 (alternating whole-second and half-second starts, plus the instant itself and one second before). Also @every durations x starts (closed form) and rarely/never matching schedules for the five-year horizon. A case is non-trivial when the answer is not simply the next second. A call of Next that does not return within 5 s (confirmed once per key with 15 s) is a violation; the remaining starts of that window before the transition (then: of that window) are not tried for that schedule and are counted as skipped.")
+	r.Rule("next: each case is one (schedule, zone, start instant) triple: kit's Next(t) against the reference scan of absolute time. Schedules: full product of a term menu per field. Start instants per zone: a regular grid 2005-2030 (step 97d5h43m17.25s) for the wide menu, and for the window menu every 7 minutes from -50h to +4h around every UTC-offset change of the zone in 2005-2024 (alternating whole-second and half-second starts, plus the instant itself and one second before). Also @every durations x starts (closed form) and rarely/never matching schedules for the five-year horizon, including a boundary family (29 February schedules - the only ones of this dialect with gaps of more than a year - from starts in the years around 1900, 2000, 2100, 2200, 2400 in four zones). Horizon oracle: with M the reference's earliest match, kit must return M if M <= t+5 calendar years (t.AddDate(5,0,0) on the zone's wall clock, inclusive: 'within five years'); must return the zero time if no match exists up to the end of calendar year year(t+1s)+5 (the documented search bound of the implementation: 'if no time is found within five years, return zero', searched to the end of that calendar year); and may return either M or the zero time when M is more than five years after t but still inside calendar year year(t+1s)+5 - the statement (zero: none within five years) and the unchanged implementation (returns M) differ there, and nothing is claimed. A case is non-trivial when the answer is not simply the next second. A call of Next that does not return within 5 s (confirmed once per key with 15 s) is a violation; the remaining starts of that window before the transition (then: of that window) are not tried for that schedule and are counted as skipped.")
 
 	// zones
 	zis := make([]*zoneInfo, len(zoneNames))
@@ -993,6 +1106,46 @@ func run(r *enumx.Run, replay *enumx.ReplayCase) {
 			}
 		}
 		phase(fmt.Sprintf("horizon: %d rarely/never matching schedules %v x %d zones x %d grid instants", len(rareSchedules), rareSchedules, len(zis), gridN(rareMod, 4)), reqs)
+	}
+	// C2. five-year horizon, boundaries: Feb-29 schedules (the only ones of this
+	// dialect with gaps of more than a year: 8 years across a non-leap century
+	// year) and never/yearly matching ones, from starts placed around every boundary
+	{
+		var reqs []unitReq
+		nStarts := 0
+		type job struct {
+			zi   *zoneInfo
+			c    int
+			spec string
+		}
+		var jobs []job
+		hz := make([]*zoneInfo, len(horizonZones)*len(horizonCenturies))
+		herr := make([]error, len(hz))
+		r.Parallel(len(hz), func(i int) {
+			c := horizonCenturies[i%len(horizonCenturies)]
+			from, to := horizonEra(c)
+			hz[i], herr[i] = loadZoneEra(horizonZones[i/len(horizonCenturies)], from, to, true)
+		})
+		for i, zi := range hz {
+			if herr[i] != nil {
+				panic(herr[i])
+			}
+			for _, sp := range horizonSpecs {
+				jobs = append(jobs, job{zi, horizonCenturies[i%len(horizonCenturies)], sp})
+			}
+		}
+		built := make([]unitReq, len(jobs))
+		r.Parallel(len(jobs), func(i int) {
+			j := jobs[i]
+			from, to := horizonEra(j.c)
+			built[i] = unitReq{Zone: j.zi.name, Spec: j.spec, Kind: "list", EraFrom: from, EraTo: to, Starts: horizonStarts(j.zi, j.c, j.spec)}
+		})
+		for i := range built {
+			built[i].ID = i
+			nStarts += len(built[i].Starts)
+			reqs = append(reqs, built[i])
+		}
+		phase(fmt.Sprintf("horizon-boundaries: %d schedules %v x zones %v x start years C-6..C+1 for C in %v (first and middle of every month, the seconds around 28 Feb/1 Mar, 29 Feb and the year end, and around every match M: M-1s, M, M+1s and M.AddDate(-5,0,0) -1s/+0/+1s); %d (schedule, zone, start) cases", len(horizonSpecs), horizonSpecs, horizonZones, horizonCenturies, nStarts), reqs)
 	}
 	// D. @every
 	{
